@@ -549,8 +549,26 @@ func (w *World) structSort(name string, t types.Type, st *types.Struct) Sort {
 		return s
 	}
 	if w.inprog[key] {
-		// recursive reference: opaque
-		return w.OpaqueSort("rec_" + name)
+		// recursive reference: one-level unrolling (a copy of the datatype whose own recursive fields are opaque)
+		if w.inprog[key+"$1"] {
+			return w.OpaqueSort("rec_" + name)
+		}
+		if s, ok := w.structOf[key+"$1"]; ok {
+			return s
+		}
+		w.inprog[key+"$1"] = true
+		n := "S_" + sanitize(name) + "_1"
+		d := &DataDecl{Name: n, Ctor: "mk_" + n, GoT: t}
+		for i := 0; i < st.NumFields(); i++ {
+			f := st.Field(i)
+			fs := w.SortOf(f.Type())
+			d.Fields = append(d.Fields, DataField{Name: f.Name(), Sel: n + "__" + f.Name(), Sort: fs, GoT: f.Type()})
+		}
+		delete(w.inprog, key+"$1")
+		w.datas[Sort(n)] = d
+		w.structOf[key+"$1"] = Sort(n)
+		w.decls = append(w.decls, dataDeclText(d))
+		return Sort(n)
 	}
 	w.inprog[key] = true
 	n := "S_" + sanitize(name)
